@@ -11,23 +11,24 @@ EXTENDS Pool, Json, IOUtils
 Rec == ndJsonDeserialize(IOEnv.TRACE)
 
 VARIABLES l,        \* position in Rec
-          outcome   \* what the scheduler reported at the end of a scenario
+          outcome,  \* what the scheduler reported at the end of a scenario
+          slotsBad  \* a broadcast returned results that do not match the calls
 
-tvars == <<vars, l, outcome>>
+tvars == <<vars, l, outcome, slotsBad>>
 
 Is(e) == l <= Len(Rec) /\ Rec[l].ev = e /\ l' = l + 1
 R == Rec[l]
-Same == UNCHANGED outcome
+Same == UNCHANGED <<outcome, slotsBad>>
 
-TrInit == Init /\ l = 1 /\ outcome = "running"
+TrInit == Init /\ l = 1 /\ outcome = "running" /\ slotsBad = FALSE
 
-TrReset == Is("reset") /\ Reset /\ outcome' = "running"
+TrReset == Is("reset") /\ Reset /\ outcome' = "running" /\ slotsBad' = FALSE
 
 TrEnd ==
   /\ Is("sched_end")
   /\ outcome' = IF R.outcome = "completed" /\ ~AllDone THEN "incomplete"
                 ELSE R.outcome
-  /\ UNCHANGED vars
+  /\ UNCHANGED <<vars, slotsBad>>
 
 TrThreadStart == Is("thread_start") /\ ThreadStart(R.tid) /\ Same
 TrThreadExit  == Is("thread_exit") /\ ThreadExit(R.tid) /\ Same
@@ -53,9 +54,10 @@ TrAtomDrop    == Is("atomic_drop") /\ R.tid = 0 /\ AtomDrop /\ Same
 TrBcastReturn == /\ Is("bcast_return") /\ R.tid = 0
                  \* C06: per-index results in index order, an empty entry
                  \* exactly for the calls that panicked.
-                 /\ Len(R.slots) = curN + 1
-                 /\ \A i \in 0..curN : (R.slots[i + 1] = 1) <=> (ended[i] = "ok")
-                 /\ BcastReturn /\ Same
+                 /\ slotsBad' = (slotsBad \/ Len(R.slots) # curN + 1 \/
+                      \E i \in 0..curN : i + 1 <= Len(R.slots) /\
+                         ~((R.slots[i + 1] = 1) <=> (ended[i] = "ok")))
+                 /\ BcastReturn /\ UNCHANGED outcome
 TrPoolDrop    == Is("pool_drop") /\ R.tid = 0 /\ PoolDrop /\ Same
 TrSenderDrop  == Is("sender_drop") /\ R.tid = 0 /\ SenderDrop /\ Same
 TrRecv        == Is("recv") /\ R.tid \in W /\ Recv(R.tid, R.ok) /\ Same
@@ -91,6 +93,9 @@ TrSpec == TrInit /\ [][TrNext]_tvars
 
 \* C07: no scenario of the real code ended in a deadlock, with workers still
 \* alive after the pool was dropped, or short of the final state.
+\* C06: per-index results land in index order, empty exactly for panicked calls.
+ResultsInIndexOrder == ~slotsBad
+
 NoDeadlockObserved == outcome # "deadlock"
 NoLeakObserved == outcome \notin {"main_done_others_blocked", "incomplete"}
 NoAbortObserved == outcome # "aborted"
